@@ -1268,8 +1268,13 @@ def _meta_apply_transform(obj, grp_func):
 
 def groupby_projection(expr, parent, dependents):
     if isinstance(parent, Projection):
+        additional_columns = expr._by_columns
+        _slice = expr.operand("_slice") if "_slice" in expr._parameters else None
+        if isinstance(_slice, list):
+            # the chunk functions select these columns from the input frame
+            additional_columns = additional_columns + _slice
         columns = determine_column_projection(
-            expr, parent, dependents, additional_columns=expr._by_columns
+            expr, parent, dependents, additional_columns=additional_columns
         )
         columns = _convert_to_list(columns)
         columns = [col for col in expr.frame.columns if col in columns]
